@@ -132,6 +132,16 @@ def curated_programs() -> list[dict]:
                          "none": {"units": {"r": 1}, "scope": "NONE", "vers": [_t("leaf", 1)]},
                          "cse": {"units": {"r": 1}, "scope": "CSE", "vers": [_t("leaf", 2)]}},
                "plan": [RUN, RUN, DRY]})
+    # 12. a blocker holding the whole capacity while two identical calls from different parents are both
+    #     parked in the limits queue: when it finishes both are nominated in one step; the second must
+    #     collapse onto the first (not be submitted again)
+    ps.append({"ns": "cur12", "res": ["r"], "limits": {"r": 2}, "root": {"t": "main", "arg": 0},
+               "tasks": {"main": {"units": {}, "vers": [_t("calls", 0, [_c("block", "c", 1), _c("mid", "c", 1),
+                                                                     _c("mid", "c", 2)])]},
+                         "mid": {"units": {}, "vers": [_t("calls", 0, [_c("leaf", "c", 5)])]},
+                         "block": {"units": {"r": 2}, "vers": [_t("leaf", 3)]},
+                         "leaf": {"units": {"r": 1}, "vers": [_t("leaf", 1)]}},
+               "plan": [RUN]})
     return [progen.normalize(p) for p in ps]
 
 
@@ -271,13 +281,15 @@ def replay_behaviour(ctx: Ctx, prog: dict, beh: dict, tag: str) -> History:
     return h
 
 
-def random_history(ctx: Ctx, prog: dict, tag: str, p_finish: float, limits: Optional[dict] = None) -> History:
+def random_history(ctx: Ctx, prog: dict, tag: str, p_finish: float, limits: Optional[dict] = None,
+                   policy: Optional[tuple] = None) -> History:
     h = History(ctx, prog, tag)
     for st in prog["plan"]:
         if st["k"] == "edit":
             h.edit(st["t"])
             continue
-        rec = h.run(st["mode"], st["cache"], simloop.RandomChooser(ctx.rng, p_finish), limits=limits)
+        chooser = simloop.PolicyChooser(*policy) if policy else simloop.RandomChooser(ctx.rng, p_finish)
+        rec = h.run(st["mode"], st["cache"], chooser, limits=limits)
         if rec["out"]["outcome"] == "hang":
             break
     return h
@@ -476,9 +488,16 @@ def suite(ctx: Ctx, on: list[str], n_random_progs: int, n_sim: int, n_random_his
                         "limits": prog["limits"], "plan": prog["plan"],
                         "choices_run1": meta[-len(h.runs)]["acts"][:30]})
         h.close()
-    # ---- 5. seeded random schedules, optionally under other limit configurations ----------------------
-    for i in range(n_random_hist):
-        pi = ctx.rng.randrange(len(progs))
+    # ---- 5. corner policies (finish as late / as early as possible, oldest / newest first) for every
+    #         program, then seeded random schedules, optionally under other limit configurations -------
+    npol = 4 * len(progs)
+    for i in range(npol + n_random_hist):
+        policy = None
+        if i < npol:
+            pi = i // 4
+            policy = (bool(i % 4 < 2), bool(i % 2))
+        else:
+            pi = ctx.rng.randrange(len(progs))
         prog = progs[pi]
         lim = None
         if alt_limits and i % 3:
@@ -486,12 +505,12 @@ def suite(ctx: Ctx, on: list[str], n_random_progs: int, n_sim: int, n_random_his
             # a job may ask for up to 2 units: keep the premise "no job demands more than the limit"
             need = {r: max([t["units"].get(r, 0) for t in prog["tasks"].values()] + [1]) for r in prog["res"]}
             lim = {r: max(lim[r], need[r]) for r in lim}
-        h = random_history(ctx, prog, f"{tag}r{i}", ctx.rng.choice([0.2, 0.5, 0.8]), limits=lim)
+        h = random_history(ctx, prog, f"{tag}r{i}", ctx.rng.choice([0.2, 0.5, 0.8]), limits=lim, policy=policy)
         stats["random"] += 1
         ts = history_traces(prog, h, expects.get(pi + 1), f"p{pi + 1}")
         for t, rec in zip(ts, h.runs):
             traces.append(t)
-            meta.append({"src": "random-schedule", "pi": pi + 1, "prog": prog, "run": rec["run_index"],
+            meta.append({"src": "policy-schedule" if policy else "random-schedule", "pi": pi + 1, "prog": prog, "run": rec["run_index"],
                          "limits": rec["limits"],
                          "acts": [e["c"] for e in rec["events"] if e["ev"] == "choice"],
                          "hang_key": _hang_key(rec) if rec["out"]["outcome"] == "hang" else None,
